@@ -23,6 +23,7 @@ from .seams import WORLD, SimClock, run_atexit
 from .shrink import SIMPLE_INPUT, SIMPLE_SPEC
 
 DEFAULT_OPTS = {"result_all": True, "save_group_times": None, "log_times": None, "verbose": None}
+EV_CREATORS = ("new_ev", "save_load", "pickle_copy", "deep_copy")
 
 
 # --------------------------------------------------------------------------- plan generation
@@ -89,13 +90,15 @@ def plan_c15(seed: int) -> dict:
         elif r < 0.91 and len(evs) < 6:
             e, si = rng.choice(evs)
             evs.append((len(evs), si))
-            ops.append(["save_load", e])
+            # a second object with the same configuration: through the YAML file, or through
+            # pickle (what a worker process receives), or through copy.deepcopy
+            ops.append([rng.choice(["save_load", "save_load", "pickle_copy", "deep_copy"]), e])
         elif r < 0.96:
             ops.append(["misc", rng.choice(["edge_case_handler", "default_evaluator", "class_groups", "label_group", "default_evaluate", "mutate_free_defaults"])])
         else:
             ops.append(["touch", rng.randrange(0, 8), rng.choice(["str", "calculate_all", "to_dict", "attrs"])])
     return {"engine": "histsim", "property": "C15", "seed": seed, "specs": specs, "inputs": inputs, "ops": ops,
-            "knobs": {"clock_jump": rng.choice([0.0, 0.2])}}
+            "knobs": {"clock_jump": rng.choice([0.0, 0.2])}, "share_components": rng.random() < 0.4}
 
 
 # --------------------------------------------------------------------------- pristine references
@@ -162,6 +165,7 @@ class Hist:
         self.nondefault = False
         self.captured = None
         self.times_set = set()
+        self.shared = {}
 
     def v(self, clause, detail):
         self.viol.append([clause, detail])
@@ -262,7 +266,10 @@ class Hist:
             self.opsig.append(kind)
             try:
                 if kind == "new_ev":
-                    self.evs.append([model.build_evaluator(plan["specs"][op[1]]), op[1], False])
+                    shared = self.shared.setdefault(op[1], {}) if plan.get("share_components") else None
+                    self.evs.append([model.build_evaluator(plan["specs"][op[1]], shared), op[1], False])
+                    if shared is not None:
+                        self.note("components_shared")
                     spec = plan["specs"][op[1]]
                     if spec["inst_metrics"] is None or spec["ech"] is None:
                         self.use("defaults")
@@ -371,6 +378,21 @@ class Hist:
                     self.evs.append([ev2, si, False])
                     if e in self.times_set:
                         self.times_set.add(len(self.evs) - 1)
+                elif kind in ("pickle_copy", "deep_copy"):
+                    e = op[1]
+                    if e >= len(self.evs):
+                        continue
+                    ev, si, _ = self.evs[e]
+                    if kind == "pickle_copy":
+                        import pickle
+
+                        ev2 = pickle.loads(pickle.dumps(ev))
+                    else:
+                        ev2 = copy.deepcopy(ev)
+                    self.evs.append([ev2, si, False])
+                    if e in self.times_set:
+                        self.times_set.add(len(self.evs) - 1)
+                    self.use(("ev", e))
                 elif kind == "misc":
                     self.misc(op[1])
                 elif kind == "touch":
@@ -485,9 +507,9 @@ def _drop_creator(plan, idx):
     c = copy.deepcopy(plan)
     ops = c["ops"]
     kind = ops[idx][0]
-    is_ev = kind in ("new_ev", "save_load")
+    is_ev = kind in EV_CREATORS
     # index of the created object
-    n = sum(1 for o in ops[:idx] if (o[0] in ("new_ev", "save_load")) == is_ev and o[0] in ("new_ev", "save_load", "new_agg") and ((o[0] == "new_agg") != is_ev))
+    n = sum(1 for o in ops[:idx] if (o[0] in EV_CREATORS if is_ev else o[0] == "new_agg"))
     out = []
     dropped_aggs = set()
     agg_counter = 0
@@ -498,9 +520,9 @@ def _drop_creator(plan, idx):
                 agg_counter += 1
             continue
         if is_ev:
-            if o[0] in ("eval", "keys", "set_times", "save_load"):
+            if o[0] in ("eval", "keys", "set_times", "save_load", "pickle_copy", "deep_copy"):
                 if o[1] == n:
-                    if o[0] == "save_load":
+                    if o[0] in EV_CREATORS:
                         return None  # would cascade; keep it simple
                     continue
                 if o[1] > n:
@@ -536,12 +558,12 @@ def candidates(plan):
     P = copy.deepcopy
     ops = plan["ops"]
     for i in reversed(range(len(ops))):
-        if ops[i][0] in ("new_ev", "save_load", "new_agg"):
+        if ops[i][0] in EV_CREATORS or ops[i][0] == "new_agg":
             c = _drop_creator(plan, i)
             if c is not None:
                 yield f"drop creator op {i} {ops[i][0]} and its users", c
     for i in reversed(range(len(ops))):
-        if ops[i][0] in ("new_ev", "save_load", "new_agg"):
+        if ops[i][0] in EV_CREATORS or ops[i][0] == "new_agg":
             continue  # ids of later operations depend on them
         c = P(plan)
         del c["ops"][i]
@@ -570,10 +592,10 @@ def candidates(plan):
             c["ops"][i][2] = False
             c["ops"][i][3] = False
             yield f"plain aggregator op {i}", c
-        if op[0] in ("save_load",):
+        if op[0] in ("save_load", "pickle_copy", "deep_copy"):
             c = P(plan)
             c["ops"][i] = ["new_ev", _spec_of(plan, op[1])]
-            yield f"save_load->new_ev op {i}", c
+            yield f"{op[0]}->new_ev op {i}", c
     for si, spec in enumerate(plan["specs"]):
         if spec != SIMPLE_SPEC:
             c = P(plan)
@@ -587,6 +609,10 @@ def candidates(plan):
                 c = P(plan)
                 c["specs"][si][key] = simple
                 yield f"spec {si} {key}={simple}", c
+    if plan.get("share_components"):
+        c = P(plan)
+        c["share_components"] = False
+        yield "components not shared", c
     if plan.get("knobs", {}).get("clock_jump"):
         c = P(plan)
         c["knobs"]["clock_jump"] = 0.0
@@ -598,6 +624,6 @@ def _spec_of(plan, ev_id):
     for op in plan["ops"]:
         if op[0] == "new_ev":
             evs.append(op[1])
-        elif op[0] == "save_load":
+        elif op[0] in ("save_load", "pickle_copy", "deep_copy"):
             evs.append(evs[op[1]] if op[1] < len(evs) else 0)
     return evs[ev_id] if ev_id < len(evs) else 0
